@@ -523,3 +523,97 @@ func c19Canon(f *ssa.Function) *ssa.Function {
 	}
 	return f
 }
+
+// ---------------------------------------------------------------- 4. the list filtered from the matches
+
+// c19FilteredLists: the values of f that denote "the matches with some entries dropped": a φ
+// (loop-carried list) all of whose incoming lists are empty (nil, make(…, 0), x[:0]) or appends to
+// such a list, with at least one appended element read from the matches; or the []string result of
+// an in-package function that is handed the matches.
+func c19FilteredLists(f *ssa.Function, isMatches func(ssa.Value) bool) map[ssa.Value]bool {
+	out := map[ssa.Value]bool{}
+	isStrings := func(t types.Type) bool {
+		s, ok := t.Underlying().(*types.Slice)
+		if !ok {
+			return false
+		}
+		b, ok := s.Elem().Underlying().(*types.Basic)
+		return ok && b.Kind() == types.String
+	}
+	fromMatches := func(v ssa.Value) bool {
+		return core.DependsOn(v, func(x ssa.Value) bool {
+			u, ok := x.(*ssa.UnOp)
+			if !ok || u.Op != token.MUL {
+				return false
+			}
+			ia, ok := u.X.(*ssa.IndexAddr)
+			return ok && core.DependsOn(ia.X, isMatches)
+		})
+	}
+	for _, b := range f.Blocks {
+		for _, in := range b.Instrs {
+			switch x := in.(type) {
+			case *ssa.Phi:
+				if !isStrings(x.Type()) {
+					continue
+				}
+				seen := map[ssa.Value]bool{}
+				ok, appended := true, false
+				var walk func(v ssa.Value)
+				walk = func(v ssa.Value) {
+					v = core.Forward(v)
+					if !ok || seen[v] {
+						return
+					}
+					seen[v] = true
+					switch y := v.(type) {
+					case *ssa.Phi:
+						for _, e := range y.Edges {
+							walk(e)
+						}
+					case *ssa.Const:
+						if !y.IsNil() {
+							ok = false
+						}
+					case *ssa.MakeSlice:
+						if n, isC := core.ConstInt(y.Len); !isC || n != 0 {
+							ok = false
+						}
+					case *ssa.Slice:
+						if y.High == nil {
+							ok = false
+						} else if n, isC := core.ConstInt(y.High); !isC || n != 0 {
+							ok = false
+						}
+					case *ssa.Call:
+						if core.CalleeName(y) != "builtin:append" || len(y.Call.Args) != 2 {
+							ok = false
+							return
+						}
+						if fromMatches(y.Call.Args[1]) {
+							appended = true
+						}
+						walk(y.Call.Args[0])
+					default:
+						ok = false
+					}
+				}
+				walk(x)
+				if ok && appended {
+					out[x] = true
+				}
+			case *ssa.Call:
+				callee := x.Call.StaticCallee()
+				if callee == nil || callee.Blocks == nil || callee.Pkg != f.Pkg || !isStrings(x.Type()) {
+					continue
+				}
+				for _, a := range x.Call.Args {
+					if isMatches(core.Forward(a)) {
+						out[x] = true
+					}
+				}
+			}
+		}
+	}
+	return out
+}
